@@ -451,18 +451,17 @@ def box_cond(ins, box):
 
 
 def forward_eval(enc, ins, vec):
-    """Evaluate the encoding on concrete inputs by walking the (ordered, definitional) constraints:
-    `v == term` defs are evaluated by substitution; multi-variable defs (div/mod, bit decompositions)
-    by a tiny local solver call. Returns a z3 model-like dict name->value wrapper or None."""
-    subs = []
-    known = {}
+    """Evaluate the encoding on concrete inputs by walking the (ordered, definitional) constraints
+    with an incrementally extended z3 model: `v == term` defs are evaluated directly; multi-variable
+    defs (div/mod, bit decompositions) by a tiny local solver call. Returns (eval function, error)."""
+    m = z3.Model()
+    known = set()
     for c, val in zip(ins, vec):
-        v = z3.BoolVal(bool(val)) if z3.is_bool(c) else z3.IntVal(val)
-        subs.append((c, v))
-        known[c.get_id()] = v
+        m.update_value(c, z3.BoolVal(bool(val)) if z3.is_bool(c) else z3.IntVal(val))
+        known.add(c.get_id())
 
     def ev(t):
-        return z3.simplify(z3.substitute(t, *subs))
+        return m.eval(t, model_completion=False)
 
     for defined, cons in enc.defs:
         if all(d in known for d in defined):
@@ -473,26 +472,25 @@ def forward_eval(enc, ins, vec):
             if z3.is_const(lhs) and lhs.get_id() == defined[0]:
                 val = ev(rhs)
                 if z3.is_int_value(val) or z3.is_true(val) or z3.is_false(val):
-                    subs.append((lhs, val))
-                    known[defined[0]] = val
+                    m.update_value(lhs, val)
+                    known.add(defined[0])
                     done = True
         if not done:
             s = z3.Solver()
             s.set("timeout", 10000)
-            c2 = ev(cons)
-            s.add(c2)
+            s.add(ev(cons))
             r = s.check()
             if r != z3.sat:
                 return None, "def %s: %s" % (str(cons)[:120], r)
-            m = s.model()
-            for d in m.decls():
+            lm = s.model()
+            for d in lm.decls():
                 cst = d()
                 if cst.get_id() in defined:
-                    val = m[d]
-                    subs.append((cst, val))
-                    known[cst.get_id()] = val
-            # uniqueness is by construction; unconstrained defined vars keep completion value
-    return ev, None
+                    m.update_value(cst, lm[d])
+                    known.add(cst.get_id())
+    def evc(t):
+        return z3.simplify(m.eval(t, model_completion=True))
+    return evc, None
 
 
 def validate(enc, kspec, variant, ret_ty):
@@ -767,12 +765,27 @@ def make_resolver(vk_all, jix, vix=None):
             cs = [c for c in jix.candidates("from") if count_args(c[1]) == 1 and first_arg_type(c[1]) == src and ret_type_of(c) == tgt]
             return jix.get(cs[0][2]) if len(cs) == 1 else None
         f = mirenc.norm_callee(func)
-        if f.startswith("QSELF[") or "{closure" in f:
+        if "{closure" in f:
+            return None
+        mq = re.match(r"^QSELF\[(.+?) as (.+)\]::(\w+)$", f)
+        if mq:
+            # `<T as Trait>::method`: the impl's method takes T (or &T) first, or returns T when it has no arguments
+            if jix is None:
+                return None
+            owner = mirenc.strip_generics(mq.group(1)).split("::")[-1].strip("&").strip()
+            meth = mq.group(3)
+            cs = [c for c in jix.candidates(meth) if count_args(c[1]) == nargs and "<impl at" in c[0] and "{closure" not in c[0]]
+            if nargs > 0:
+                cs = [c for c in cs if first_arg_type(c[1]) == owner]
+            else:
+                cs = [c for c in cs if ret_type_of(c) == owner]
+            return jix.get(cs[0][2]) if len(cs) == 1 else None
+        if f.startswith("QSELF["):
             return None
         # a generic instantiation resolves to the polymorphic body; that is only usable when the body's
         # generic-dependent calls are conversions the encoder dispatches on value tags (otherwise the
         # encoder refuses inside the body). Ranged-integer generics are never taken from the dump.
-        if "rangeint::" in f:
+        if "rangeint::" in f or re.match(r"^(?:\w+::)*ri(?:8|16|32|64|128)::<", f):
             return None
         sg = mirenc.strip_generics(f)
         segs = sg.split("::")
